@@ -7,5 +7,6 @@ INVARIANT LengthsAndChecksumsOK
 INVARIANT ChecksumDefsAgree
 INVARIANT ParseRecovers
 INVARIANT ReserialiseSame
-PROPERTY ObservationsOK
+
 CHECK_DEADLOCK FALSE
+PROPERTY ObservationsOK
